@@ -32,6 +32,15 @@ type Foreign struct {
 	HdrRels   bool     `json:"hdr_rels,omitempty"`  // first header/footer part gets its own relationship part
 	Extras    []string `json:"extras,omitempty"`    // theme fontTable webSettings customXml settings
 	Root      int      `json:"root,omitempty"`      // 0 library root, 1-3 root with document properties and other ids
+	// widening (zero values = none of it; see foreign2.go)
+	ExtraLinks       int  `json:"extra_links,omitempty"`       // n more external hyperlink relationships (every second one referenced from the body): counts past 9 / 32 / 64 / 99
+	AbsTargets       int  `json:"abs_targets,omitempty"`       // bit mask: 1 header/footer, 2 image, 4 numbering/notes/settings, 8 styles: Target written as an absolute part name
+	ExplicitInternal bool `json:"explicit_internal,omitempty"` // TargetMode="Internal" (the default) written out on every second internal relationship
+	RelsPrefix       int  `json:"rels_prefix,omitempty"`       // bit mask: 1 main document relationship part, 2 root relationship part: elements carry a namespace prefix
+	MultiSect        bool `json:"multi_sect,omitempty"`        // a first section (paragraph-level sectPr) that names the existing header/footer relationships
+	NoteRels         bool `json:"note_rels,omitempty"`         // the footnotes (or endnotes) part gets a hyperlink note and its own relationship part
+	DirEntries       bool `json:"dir_entries,omitempty"`       // directory entries in the zip, as zip tools write them
+	OpenPath         bool `json:"open_path,omitempty"`         // opened with document.Open from a file instead of OpenFromMemory
 }
 
 // Info is what the transformation did (for labels and for known-finding triggers).
@@ -46,6 +55,10 @@ type Info struct {
 	HdrRelsPart   string   // header/footer part that received its own relationship part ("" = none)
 	ExternalLinks int
 	RepairedRoot  int // misplaced root relationships of the base package moved to the document part
+	NoteRelsPart  string // notes part that received its own relationship part ("" = none)
+	MultiSect     bool   // a paragraph-level sectPr with header/footer references was inserted
+	AbsTargets    int    // relationships whose target was written in absolute form
+	Straddle9     bool   // ids rId9 and rId10 (or rId99 and rId100) both occur
 }
 
 func (i *Info) Tag() string {
@@ -233,6 +246,13 @@ func Transform(b []byte, f *Foreign) ([]byte, *Info, error) {
 			}
 		}
 	}
+	if f.MultiSect { // a header that only the FIRST section (paragraph-level sectPr) uses
+		if _, taken := parts["word/header9.xml"]; !taken {
+			parts["word/header9.xml"] = []byte(`<?xml version="1.0" encoding="UTF-8" standalone="yes"?>` + "\n" + `<w:hdr xmlns:w="` + wNS + `"><w:p><w:r><w:t>first section</w:t></w:r></w:p></w:hdr>`)
+			addOverride("word/header9.xml", "application/vnd.openxmlformats-officedocument.wordprocessingml.header+xml")
+			others = append(others, frel{old: "\x00ms", typ: opc.RelPrefix + "header", target: "header9.xml"})
+		}
+	}
 	// 4. external hyperlink
 	doc := string(parts["word/document.xml"])
 	if f.Hyperlink {
@@ -241,6 +261,14 @@ func Transform(b []byte, f *Foreign) ([]byte, *Info, error) {
 		}
 		others = append(others, frel{old: "\x00hyperlink", typ: opc.RelPrefix + "hyperlink", target: extURL, mode: "External"})
 		info.ExternalLinks++
+	}
+
+	for i := 0; i < f.ExtraLinks; i++ {
+		others = append(others, frel{old: fmt.Sprintf("\x00xl%d", i), typ: opc.RelPrefix + "hyperlink", target: fmt.Sprintf("%s&n=%d", extURL, i), mode: "External"})
+		info.ExternalLinks++
+	}
+	if f.ExtraLinks > 0 && !strings.Contains(doc, "<w:body>") {
+		return nil, nil, fmt.Errorf("base document has no literal <w:body>")
 	}
 
 	// 5. ids
@@ -287,6 +315,25 @@ func Transform(b []byte, f *Foreign) ([]byte, *Info, error) {
 			id = fmt.Sprintf("rId%d", k+2)
 			if k == n-1 {
 				id = fmt.Sprintf("rId%d", n+3)
+			}
+		case "straddle": // rId8, rId9, rId10, rId11, ...: the one-digit / two-digit boundary
+			id = fmt.Sprintf("rId%d", 8+k)
+		case "big": // rId98, rId99, rId100, ...
+			id = fmt.Sprintf("rId%d", 98+k)
+		case "huge": // numbers past 32 and 64 bits
+			id = []string{"rId4294967296", "rId4294967297", "rId18446744073709551616", "rId18446744073709551617", "rId2147483648", "rId99999999999999999999"}[k%6]
+			if k >= 6 {
+				id = fmt.Sprintf("%s%d", id, k)
+			}
+		case "prefixes": // ids that are prefixes of one another, with leading zeros
+			id = []string{"rId", "rId0", "rId00", "rId2", "rId20", "rId200", "rId02", "rId2000", "rId002", "r", "rI"}[k%11]
+			if k >= 11 {
+				id = fmt.Sprintf("%s0%d", id, k)
+			}
+		case "case": // ids that differ in case only
+			id = []string{"rId2", "RID2", "rid2", "Rid2", "rID2", "RId2", "riD2", "rId3", "RID3", "rid3", "Rid3"}[k%11]
+			if k >= 11 {
+				id = fmt.Sprintf("%s_%d", id, k)
 			}
 		case "drawn":
 			id = drawn(k)
@@ -373,7 +420,10 @@ func Transform(b []byte, f *Foreign) ([]byte, *Info, error) {
 	if f.Hyperlink {
 		doc = strings.Replace(doc, "<w:body>", `<w:body><w:p><w:hyperlink r:id="`+escAttr(hlID)+`" w:history="1"><w:r><w:t>link</w:t></w:r></w:hyperlink></w:p>`, 1)
 	}
+	doc = widenBody(doc, f, others, info)
 	parts["word/document.xml"] = ensureNSR([]byte(doc), "w:document")
+	widenRels(f, others, styles, info)
+	widenNotes(f, parts, others, info)
 
 	// 7. a header/footer part with its own relationship part
 	if f.HdrRels {
@@ -431,7 +481,7 @@ func Transform(b []byte, f *Foreign) ([]byte, *Info, error) {
 			root[0], root[2] = root[2], root[0]
 		}
 	}
-	parts["_rels/.rels"] = writeRels(root)
+	parts["_rels/.rels"] = writeRelsPrefixed(root, f.RelsPrefix&2 != 0)
 
 	// 9. relationship part of the main document
 	var all []frel
@@ -442,7 +492,7 @@ func Transform(b []byte, f *Foreign) ([]byte, *Info, error) {
 	if styles != nil && f.StylesEnd {
 		all = append(all, *styles)
 	}
-	parts[relsMainDoc] = writeRels(all)
+	parts[relsMainDoc] = writeRelsPrefixed(all, f.RelsPrefix&1 != 0)
 	parts["[Content_Types].xml"] = []byte(ct)
 
 	// 10. facts for labels and triggers
@@ -462,6 +512,7 @@ func Transform(b []byte, f *Foreign) ([]byte, *Info, error) {
 		}
 	}
 	info.Dense = dense
+	info.Straddle9 = (nums[9] && nums[10]) || (nums[99] && nums[100])
 	next := n + 2
 	info.CollideFirst = nums[next] || stylesID == fmt.Sprintf("rId%d", next)
 	if !info.CollideFirst {
@@ -483,6 +534,9 @@ func Transform(b []byte, f *Foreign) ([]byte, *Info, error) {
 	}
 	sort.Strings(names)
 	names = append([]string{"[Content_Types].xml", "_rels/.rels"}, names...)
+	if f.DirEntries {
+		names = withDirEntries(names)
+	}
 	for _, nme := range names {
 		w, err := zw.Create(nme)
 		if err != nil {
